@@ -24,10 +24,10 @@ def pygsti_label_from_statement(gate):
     if isinstance(gate.gate_def, IdleGateDefinition):
         return None
 
-    args = [f"GJ{gate.name}"]
+    qubits = []
+    args = []
     for param, template in zip(gate.parameters.values(), gate.gate_def.parameters):
         if template.classical:
-            args.append(";")
             if type(param) == Constant:
                 args.append(param.value)
             else:
@@ -35,8 +35,11 @@ def pygsti_label_from_statement(gate):
         else:
             # quantum argument: a qubit, by its index in the fundamental
             # register (following map aliases and let-valued indices)
-            args.append(param.resolve_qubit()[1])
-    return Label(args)
+            qubits.append(param.resolve_qubit()[1])
+    # Qubits and arguments are passed separately: in the flat tuple form
+    # (name, qubit, ..., ";", arg, ...) pyGSTi may take the first qubit index
+    # for the offset of its older (name, K, args..., qubits...) layout.
+    return Label(f"GJ{gate.name}", tuple(qubits), args=tuple(args) if args else None)
 
 
 def pygsti_circuit_from_gatelist(gates, n_qubits):
@@ -90,7 +93,7 @@ class pyGSTiCircuitGeneratingVisitor(UsedQubitIndicesVisitor):
         (k,) = indices
 
         for lbl in indices[k]:
-            yield Label(("Gidle", lbl, ";", duration))
+            yield Label("Gidle", (lbl,), args=(duration,))
 
     def visit_Circuit(self, obj, context=None):
         registers = obj.fundamental_registers()
